@@ -12,6 +12,10 @@ _local_type = type(threading.local())
 _re_type = type(re.compile(''))
 
 
+def _first(kv):
+    return kv[0]
+
+
 class Canon:
     def __init__(self, names=None, skip=None, tb=True):
         self.names = names or {}      # id(obj) -> stable name (harness handlers, hooks …)
@@ -45,17 +49,24 @@ class Canon:
         if i in memo:
             return ('@', memo[i])
         memo[i] = len(memo)
+        memo.setdefault(None, []).append(o)   # keep it alive: a freed temporary's id could be reused
         c = self._c
         if isinstance(o, (list, tuple)):
             return ('L' if isinstance(o, list) else 'T',) + tuple(c(x, memo) for x in o)
         if isinstance(o, dict):
-            items = [(c(k, memo), c(v, memo)) for k, v in o.items() if not self.skip(o, k)]
+            try:
+                src = sorted(o.items(), key=_first)      # str keys (the common case): no repr needed
+                presorted = True
+            except TypeError:
+                src = o.items()
+                presorted = False
+            items = [(c(k, memo), c(v, memo)) for k, v in src if not self.skip(o, k)]
             if type(o) is not dict:
                 extra = getattr(o, '__dict__', None)
                 if extra:
                     items.append(('__dict__', c(extra, memo)))
-                return ('D', type(o).__name__, tuple(sorted(items, key=repr)))
-            return ('D', tuple(sorted(items, key=repr)))
+                return ('D', type(o).__name__, tuple(items if presorted else sorted(items, key=repr)))
+            return ('D', tuple(items if presorted else sorted(items, key=repr)))
         if isinstance(o, (set, frozenset)):
             return ('S', tuple(sorted((c(x, memo) for x in o), key=repr)))
         if isinstance(o, types.MethodType):
@@ -86,7 +97,7 @@ class Canon:
             fr = o.gi_frame
             if fr is None:
                 return ('G', o.__qualname__, 'done')
-            return ('G', o.__qualname__, fr.f_lasti,
+            return ('G', o.__qualname__, fr.f_lineno,
                     tuple(sorted(((k, c(v, memo)) for k, v in fr.f_locals.items()), key=repr)))
         if isinstance(o, (types.FrameType, types.TracebackType, types.CodeType)):
             return ('X', type(o).__name__)
@@ -116,7 +127,7 @@ class Canon:
             r = re.sub(r' at 0x[0-9a-f]+', '', r)
             return ('R', type(o).__qualname__, r)
         return ('O', type(o).__qualname__,
-                tuple(sorted(((k, c(v, memo)) for k, v in d.items() if not self.skip(o, k)), key=repr)))
+                tuple((k, c(v, memo)) for k, v in sorted(d.items(), key=_first) if not self.skip(o, k)))
 
 
 default = Canon()
